@@ -9,7 +9,7 @@ SHADOW = False
 CELLS_RULE = "(saved class, restoring class, kind of parameter difference, group kind)"
 EXPECT_PROBES = ["role-mismatch-refused", "params-mismatch-refused", "both-mismatch-refused", "sym-to-asym-refused",
                  "unused-element-differs-accepted", "same-config-accepted", "diff:generator-only", "diff:seed:M",
-                 "diff:seed:N", "diff:seed:S", "diff:seed:MN-shift", "diff:seed:MN-swap", "diff:shipped", "diff:group"]
+                 "diff:seed:N", "diff:seed:S", "diff:seed:MN-shift", "diff:seed:MN-swap", "diff:group-pwmap", "diff:shipped", "diff:group"]
 
 
 def other_p_same_q(gspec, rng):
@@ -35,6 +35,8 @@ def gen_other_pset(rng, ps0, cls):
     g0 = ps0["group"]
     ps1 = copy.deepcopy(ps0)
     choices = ["seed:M", "seed:N", "seed:S", "shipped", "seed:MN-shift", "seed:MN-swap"]
+    if g0["kind"] in ("int", "i1024"):
+        choices += ["group-pwmap"]
     if g0["kind"] == "int":
         choices += ["generator-only", "generator-only", "generator-only"]
         if gen.is_negligible(g0):
@@ -42,6 +44,16 @@ def gen_other_pset(rng, ps0, cls):
     elif g0["kind"] in ("i1024", "i2048", "i3072"):
         choices += ["generator-only"]
     c = rng.choice(choices)
+    if c == "group-pwmap":
+        # same p, q, g and seeds; the application's group class derives password scalars differently
+        if g0["kind"] != "int":
+            from ..model import groups as mg
+            base = {"kind": "int", "p": str(mg.I1024["p"]), "q": str(mg.I1024["q"]), "g": str(mg.I1024["g"])}
+        else:
+            base = dict(g0)
+        base["pwmap"] = "alt"
+        ps1["group"] = base
+        return ps1, c
     if c == "seed:MN-swap":
         sd = worlds.seeds_of(ps0)
         if sd["M"] == sd["N"]:
@@ -128,9 +140,14 @@ def generate(rng, tier="quick"):
     for n in (0, 1, 2, 3):
         steps += [{"op": "boot", "n": n}, {"op": "start", "n": n}]
     target = len(psets) - 1
+    pinned = len(psets) > 1 and rng.random() < 0.12
     for n in (0, 1):
-        steps += [{"op": "persist", "n": n}, {"op": "crash", "n": n},
-                  {"op": "recover", "n": n, "cls": cls2, "pset": target}]
+        rec = {"op": "recover", "n": n, "cls": cls2, "pset": target}
+        if pinned:
+            # restored through an application subclass that pins ITS parameter set (the other one),
+            # while from_serialized() is handed the parameter set the state was saved under
+            rec = {"op": "recover", "n": n, "cls": cls2, "pset": 0, "pinned": target}
+        steps += [{"op": "persist", "n": n}, {"op": "crash", "n": n}, rec]
     acc2 = {"A": 0x42, "B": 0x41, "S": 0x53}[cls2]
     steps += [{"op": "deliver", "src": 3, "dst": 2},
               {"op": "deliver", "src": 3, "dst": 0},
@@ -151,8 +168,8 @@ def param_difference(w, a, b, cls):
     if ga.kind != gb.kind:
         return True, True, True
     if ga.kind == "int":
-        gdiff = (ga.p, ga.q, ga.base) != (gb.p, gb.q, gb.base)
-        gen_only = gdiff and (ga.p, ga.q) == (gb.p, gb.q)
+        gdiff = (ga.p, ga.q, ga.base, type(ga).__name__) != (gb.p, gb.q, gb.base, type(gb).__name__)
+        gen_only = gdiff and (ga.p, ga.q, type(ga).__name__) == (gb.p, gb.q, type(gb).__name__)
     else:
         gdiff = (ga.Q, ga.d, ga.L, ga.base) != (gb.Q, gb.d, gb.L, gb.base)
         gen_only = False
@@ -179,7 +196,7 @@ class Oracle(Hooks):
             ev = rec[0]
             step = [s for s in w.scn["steps"] if s["op"] == "recover" and s["n"] == n.idx][0]
             saved_cls, saved_pset = n.cls, n.pset
-            cls2, pset2 = step.get("cls", saved_cls), step.get("pset", saved_pset)
+            cls2, pset2 = step.get("cls", saved_cls), step.get("pinned", step.get("pset", saved_pset))
             gdiff, used, unused = param_difference(w, saved_pset, pset2, saved_cls)
             role_diff = cls2 != saved_cls
             pdiff = bool(gdiff) or used
